@@ -17,11 +17,11 @@ from vp.val import cN, cbool, clist, cpair, copt
 def key_coq(k):
     return '{| k_peer := %s; k_sh := %s; k_ix := %s; k_pid := %s |}' % tuple(cN(x) for x in k)
 
-OPC = {'up': 3, 'down': 4, 'reset': 5, 'pol': 6, 'grdown': 7, 'dstale': 8, 'dropfam': 9, 'nhv': 10, 'unsub': 13}
+OPC = {'up': 3, 'down': 4, 'reset': 5, 'pol': 6, 'grdown': 7, 'dstale': 8, 'dropfam': 9, 'nhv': 10, 'mllgr': 11, 'unsub': 13}
 COQ = {'up': 'Up', 'down': 'Down', 'reset': 'SoftReset', 'pol': 'SetPol', 'grdown': 'GrDown', 'dstale': 'DropStale',
-       'dropfam': 'DropFam', 'nhv': 'Nhv'}
+       'dropfam': 'DropFam', 'nhv': 'Nhv', 'mllgr': 'MarkLlgr'}
 NSTEPS = {'sub': 3, 'unsub': 1, 'ins': 2, 'rem': 2, 'up': 1, 'down': 4, 'grdown': 4, 'dstale': 3, 'dropfam': 3,
-          'reset': 3, 'pol': 1, 'nhv': 3}
+          'reset': 3, 'pol': 1, 'nhv': 3, 'mllgr': 3}
 
 def op_slot(o):
     return o[1] if len(o) > 1 else 0
@@ -141,12 +141,16 @@ class Prop:
             'routes_both_shards': [('ins', K(1, 0), 1), ('ins', K(1, 1), 2), ('ins', K(2, 0), 3)],
             'filtered_by_policy': [('pol', 1), ('ins', K(1, 0), 1), ('ins', K(1, 1), 2)],
             'stale_retained': [('ins', K(1, 0), 1), ('ins', K(1, 1), 2), ('grdown', 1), ('up', 1), ('ins', K(1, 0), 3)],
+            # attribute blocks 4.. carry NO_LLGR (the boundary 3 / 4 on both shards, another peer's NO_LLGR path, a stale one)
+            'nollgr_routes': [('ins', K(1, 0), 4), ('ins', K(1, 1), 3), ('ins', K(1, 1, 1), 5), ('ins', K(2, 0), 6)],
+            'nollgr_stale': [('ins', K(1, 0), 4), ('ins', K(1, 1), 7), ('grdown', 1)],
         }
         mutators = {
             'ins_new': [('ins', K(1, 1, 1), 0)], 'ins_replace': [('ins', K(1, 0), 0)], 'rem': [('rem', K(1, 0))],
             'rem_absent': [('rem', K(1, 0, 3))], 'down': [('down', 1)], 'grdown': [('grdown', 1)],
             'dstale': [('dstale', 1)], 'dropfam': [('dropfam', 1)], 'reset_after_policy_change': [('pol', 2), ('reset', 1)],
             'reset': [('reset', 1)], 'pol': [('pol', 2)], 'up': [('up', 1)], 'nhv': [('nhv', 1)], 'addpath': [('ins', K(1, 0, 0, 1), 2)],
+            'mllgr': [('mllgr', 1)],
         }
         for sname, pre in states.items():
             npre = sum(NSTEPS[o[0]] for o in pre)
@@ -192,13 +196,14 @@ class Prop:
             x = rng.random()
             p = rng.choice(peers)
             k = (p, rng.choice([0, 1]), rng.choice([0, 0, 1]), rng.choice([0, 0, 0, 1]))
-            if x < 0.40: ops.append(('ins', k, rng.choice([0, 1, 2, 3])))
+            if x < 0.40: ops.append(('ins', k, rng.choice([0, 1, 2, 3, 3, 4, 5])))
             elif x < 0.55: ops.append(('rem', k))
             elif x < 0.62: ops.append(('up', p))
             elif x < 0.68: ops.append(('down', p))
             elif x < 0.75: ops.append(('grdown', p))
             elif x < 0.80: ops.append(('dstale', p))
             elif x < 0.83: ops.append(('dropfam', p))
+            elif x < 0.86: ops.append(('mllgr', p))
             elif x < 0.92: ops.append(('reset', rng.choice([1, 2, 3])))
             elif x < 0.95: ops.append(('nhv', rng.choice([1, 2])))
             else: ops.append(('pol', rng.choice([0, 1, 2])))
